@@ -114,12 +114,14 @@ def _gen(con, sigcase, count, seed):
     import itertools
     import random
     rnd = random.Random(seed)
-    dicts = [{}, {1: 1}, {1: 2, 2: 3}, {1: 1, 2: 1, 3: 4}, {2: 5}, {1: 1, 3: 2}, {1: 3, 2: 1, 3: 1, 4: 2}, {4: 7}]
+    # ODF outline levels run from 1 to 10: counters and requested levels up to the last one
+    dicts = [{}, {1: 1}, {1: 2, 2: 3}, {1: 1, 2: 1, 3: 4}, {2: 5}, {1: 1, 3: 2}, {1: 3, 2: 1, 3: 1, 4: 2}, {4: 7},
+             {k: k for k in range(1, 11)}, {9: 2, 10: 3}, {10: 5}, {1: 1, 9: 4, 10: 2}, {8: 1, 9: 1, 10: 1}]
     for d in dicts:
-        for level in range(1, 6):
+        for level in range(1, 11):
             yield {"level_indexes": dict(d), "level": level}
     for _ in range(count):
-        d = {k: rnd.randint(1, 9) for k in rnd.sample(range(1, 8), rnd.randint(0, 5))}
+        d = {k: rnd.randint(1, 9) for k in rnd.sample(range(1, 11), rnd.randint(0, 6))}
         yield {"level_indexes": d, "level": rnd.randint(1, 10)}
 
 
